@@ -855,6 +855,10 @@ func ruleSettingsAck(p *Prog, r *Out) {
 						notAck = true
 					}
 				}
+				// or: the frame came through the hand-over channel, and the only SETTINGS frames handed over are non-ACK ones
+				if !notAck && inCase {
+					notAck = p.settingsForwardedOnlyWithoutAck(enclosingFunc(pm, c))
+				}
 				r.check(inCase && notAck, name+" call in "+enclosingFunc(pm, c), p.pos(c.Pos()), "called for SETTINGS without ACK only",
 					fmt.Sprintf("%s is called outside the `case FrameSettings` / `!IsAck()` branch (inCase=%v notAck=%v): an ACK would be acknowledged, or another frame type acknowledged as SETTINGS", name, inCase, notAck))
 			})
@@ -1141,4 +1145,40 @@ func ruleDataEmitters(p *Prog, r *Out) {
 			r.bad(fn+" emits DATA", "?", fn+" no longer acquires a DATA frame: the audited emitter has moved and the window rules are anchored on it")
 		}
 	}
+}
+
+// settingsForwardedOnlyWithoutAck: fn receives its frames from serverConn.reader,
+// and every forward() of a SETTINGS frame in the read loop sits under !IsAck().
+func (p *Prog) settingsForwardedOnlyWithoutAck(fn string) bool {
+	if fn != "(*serverConn).handleStreams" {
+		return false
+	}
+	rl := p.decl("(*serverConn).readLoop")
+	if rl == nil {
+		return false
+	}
+	pm := p.pmFor(rl)
+	n, good := 0, 0
+	ast.Inspect(rl.Body, func(nd ast.Node) bool {
+		cc, ok := nd.(*ast.CaseClause)
+		if !ok || len(cc.List) != 1 {
+			return true
+		}
+		if v, okv := p.intConst(cc.List[0]); !okv || v != 4 {
+			return true
+		}
+		inspectCalls(cc, func(c *ast.CallExpr) {
+			if p.calleeOf(c) != "(*serverConn).forward" {
+				return
+			}
+			n++
+			for _, g := range p.knownFacts(pm, c) {
+				if k, ok := g.Cond.(*ast.CallExpr); ok && p.calleeOf(k) == "(*Settings).IsAck" && !g.Val {
+					good++
+				}
+			}
+		})
+		return true
+	})
+	return n >= 1 && n == good
 }
